@@ -604,10 +604,7 @@ func (w *v20World) cleanup() {
 	close(w.stopBg)
 	w.cancel()
 	if w.running && !w.wedged {
-		select {
-		case <-w.runDone:
-		case <-time.After(5 * time.Second):
-		}
+		v20WaitDone(w.runDone, 5*time.Second)
 	}
 	if !w.wedged {
 		w.drainWatch()
@@ -700,7 +697,7 @@ func (d *v20Det) emit(op string, withObs bool) {
 // wait until the Run goroutine is parked again (gate), has returned, or sits in the select with nothing ready.
 func (d *v20Det) settle(expectRunning bool) {
 	w := d.w
-	deadline := time.After(v20Wait)
+	patience := v20NewPatience(v20Wait)
 	tick := time.NewTicker(100 * time.Microsecond)
 	defer tick.Stop()
 	for {
@@ -711,11 +708,13 @@ func (d *v20Det) settle(expectRunning bool) {
 		case <-w.runDone:
 			d.at = "done"
 			return
-		case <-deadline:
-			d.at = "timeout"
-			d.bad = true
-			return
 		case <-tick.C:
+			if patience.expired() {
+				// past the deadline AND nothing in the process can still move (or 20 x the deadline): the Run goroutine is not coming
+				d.at = "timeout"
+				d.bad = true
+				return
+			}
 			if expectRunning && w.col.GetState() == StateRunning && d.ready() == 0 {
 				if d.osSig && !v20RunParkedInSelect() {
 					// StateRunning is stored before Run calls signal.Notify and enters the select: wait until the Run goroutine
@@ -1208,6 +1207,7 @@ func TestVerifC20RunLoop(t *testing.T) {
 		if d.reloads > 0 {
 			out.Linef("nt")
 		}
+		v20EmitRetries(out)
 		out.Linef("end")
 		out.Flush()
 	}
@@ -1217,6 +1217,18 @@ func TestVerifC20RunLoop(t *testing.T) {
 // race cases: no gates, native scheduling; monitored only (`tr` lines -> Lean monitor, Go `viol` oracle)
 
 func (w *v20World) waitFor(cond func() bool, d time.Duration) bool {
+	p := v20NewPatience(d)
+	for !cond() {
+		if p.expired() {
+			return false
+		}
+		time.Sleep(50 * time.Microsecond)
+	}
+	return true
+}
+
+// waitBriefly: a fixed short wait that is not a verdict
+func (w *v20World) waitBriefly(cond func() bool, d time.Duration) bool {
 	deadline := time.Now().Add(d)
 	for !cond() {
 		if time.Now().After(deadline) {
@@ -1314,10 +1326,10 @@ func TestVerifC20Race(t *testing.T) {
 		wg.Wait()
 		// every action has been performed (all Shutdown() calls have returned). Either Run returns, or the system comes to rest.
 		verdict := "returned"
-		deadline := time.Now().Add(v20Wait)
+		patience := v20NewPatience(v20Wait)
 		calm := 0
 		for !w.returned() {
-			if time.Now().After(deadline) {
+			if patience.expired() {
 				verdict = "timeout"
 				break
 			}
@@ -1362,6 +1374,7 @@ func TestVerifC20Race(t *testing.T) {
 		if reloads > 1 {
 			out.Linef("nt")
 		}
+		v20EmitRetries(out)
 		out.Linef("end")
 		out.Flush()
 	}
@@ -1378,15 +1391,19 @@ var v20SigGuard chan os.Signal
 // channel was not registered for it.
 func v20DeliverSignal(sig syscall.Signal) bool {
 	wait := func(want syscall.Signal) bool {
-		deadline := time.After(3 * time.Second)
+		p := v20NewPatience(3 * time.Second)
+		tick := time.NewTicker(200 * time.Microsecond)
+		defer tick.Stop()
 		for {
 			select {
 			case got := <-v20SigGuard:
 				if got == want {
 					return true
 				}
-			case <-deadline:
-				return false
+			case <-tick.C:
+				if p.expired() {
+					return false
+				}
 			}
 		}
 	}
@@ -1436,4 +1453,108 @@ func v20RunParkedInSelect() bool {
 		}
 	}
 	return false
+}
+
+// ---------------------------------------------------------------------------------------------
+// load-tolerant waiting: a wall-clock deadline alone must never become a verdict on a loaded machine
+
+var v20GateRetries atomic.Int64 // waits that went past their base deadline (the process was still making progress)
+
+// v20Quiescent: no goroutine of this process other than the caller (and os/signal's receiver) can make progress by itself —
+// every one of them is blocked on a channel, a select, a lock, a condition or the network. A goroutine that is runnable,
+// running, sleeping, in a syscall or in any state not known to be blocked counts as "still making progress".
+func v20Quiescent() bool {
+	buf := make([]byte, 4<<20)
+	n := runtime.Stack(buf, true)
+	blocks := strings.Split(string(buf[:n]), "\n\n")
+	for i, g := range blocks {
+		if i == 0 || !strings.HasPrefix(g, "goroutine ") { // the first block is the caller
+			continue
+		}
+		if strings.Contains(g, "os/signal.signal_recv") || strings.Contains(g, "os/signal.loop") {
+			continue
+		}
+		hdr := g
+		if k := strings.Index(g, "\n"); k >= 0 {
+			hdr = g[:k]
+		}
+		a, b := strings.Index(hdr, "["), strings.Index(hdr, "]")
+		if a < 0 || b < a {
+			return false
+		}
+		state := hdr[a+1 : b]
+		if k := strings.Index(state, ","); k >= 0 {
+			state = state[:k]
+		}
+		switch state {
+		case "chan receive", "chan send", "select", "semacquire", "sync.Mutex.Lock", "sync.RWMutex.RLock", "sync.RWMutex.Lock",
+			"sync.Cond.Wait", "sync.WaitGroup.Wait", "IO wait", "chan receive (nil chan)", "chan send (nil chan)", "select (no cases)",
+			"finalizer wait":
+		default:
+			return false
+		}
+	}
+	return true
+}
+
+// v20Patience: a deadline of `base` that is extended (up to 20 x base) as long as the process is not quiescent; it expires
+// early only when three consecutive samples 100 ms apart found every other goroutine blocked (a genuine hang).
+type v20Patience struct {
+	start, next time.Time
+	base        time.Duration
+	quiet       int
+	extended    bool
+}
+
+func v20NewPatience(base time.Duration) *v20Patience {
+	now := time.Now()
+	return &v20Patience{start: now, next: now.Add(base), base: base}
+}
+
+func (p *v20Patience) expired() bool {
+	now := time.Now()
+	if now.Before(p.next) {
+		return false
+	}
+	if now.Sub(p.start) >= 20*p.base {
+		return true
+	}
+	if v20Quiescent() {
+		p.quiet++
+	} else {
+		p.quiet = 0
+	}
+	if p.quiet >= 3 {
+		return true
+	}
+	if !p.extended {
+		p.extended = true
+		v20GateRetries.Add(1)
+	}
+	p.next = now.Add(100 * time.Millisecond)
+	return false
+}
+
+// v20WaitDone waits for ch to be closed, patiently
+func v20WaitDone(ch <-chan struct{}, base time.Duration) bool {
+	p := v20NewPatience(base)
+	tick := time.NewTicker(200 * time.Microsecond)
+	defer tick.Stop()
+	for {
+		select {
+		case <-ch:
+			return true
+		case <-tick.C:
+			if p.expired() {
+				return false
+			}
+		}
+	}
+}
+
+// v20EmitRetries: `stat gate_retry n` for the case that just ended, if some wait of it had to be extended
+func v20EmitRetries(out *vOut) {
+	if n := v20GateRetries.Swap(0); n > 0 {
+		out.Linef("stat gate_retry %d", n)
+	}
 }
